@@ -16,11 +16,12 @@ from pbt.props import common
 
 ID = 'C04'
 LEVEL = 'exploration'
-TECHNIQUE = 'differential testing over owned schedules: each stage is re-run under pre-start worker delays realising chosen completion orders (multiprocessing.Process subclass), under other Python hash seeds (fresh interpreters), and with worker counts inducing the same chunking; canonical outputs compared bit for bit with a baseline run'
+TECHNIQUE = 'differential testing over owned schedules: each stage is re-run under pre-start worker delays realising chosen completion orders (multiprocessing.Process subclass), under other Python hash seeds (fresh interpreters), with worker counts inducing the same chunking, and in a fresh interpreter restricted to one or two CPUs (sched_setaffinity); canonical outputs compared bit for bit with a baseline run'
 RULE = ('cases = (stage in {statistics, reference markers, query marker selection, mapping}) x generated input x completion orders of the first k<=4 workers '
         '(all k! orders enumerated for fixed inputs in the enumerated part; sampled permutations in the generated part) x hash seeds x worker counts; '
         'non-trivial = a run whose REALISED completion order (from finish stamps) differs from dispatch order, or whose hash seed differs from the baseline; '
         'distinct = distinct (spec hash)')
+RULE += '; additions: reference markers also with a gene list and on 9-11 leaves, mapping also through the in-memory result path of run_type_assignment_on_h5ad, chunk sizes above ceil(n/workers), and one run per case repeated in a fresh interpreter restricted to one or two CPUs'
 ASSUMPTIONS = ['completion order and hash seed are owned; finer timing (pre-emption inside a worker) is not',
                'timestamps, durations and metadata blocks are not compared']
 EXHAUSTIVE = {'quick': False, 'thorough': True}
